@@ -30,6 +30,13 @@
 (*   notAfter  an instant (Temporal)                                       *)
 (*   exts      ids of further extensions present                           *)
 (*                                                                         *)
+(* An ENTRY of a submission is a byte string: a certificate in some        *)
+(* encoding, followed by something or by nothing (Form below).  It is a    *)
+(* certificate exactly when nothing follows and the encoding is one the    *)
+(* front end reads; an entry that parses is a certificate of its own (its  *)
+(* bytes differ from those of the DER form), and the path handed on        *)
+(* carries the entries as submitted, byte for byte.                        *)
+(*                                                                         *)
 (* Admit / Paths are written from the property text.  CodePaths /          *)
 (* CodeChainOK are written the way the code is structured (search for      *)
 (* every path from the leaf through the submitted certificates to a        *)
@@ -48,6 +55,38 @@ Links(a, b) == /\ a.parses /\ b.parses
                /\ a.issuer = b.subj
                /\ a.signer = b.key
                /\ b.isCA
+
+(* ---------- the bytes of an entry ---------- *)
+\* A submitted entry is the certificate c written in the encoding enc and followed by trailer:
+\*   enc      "der"         the DER encoding
+\*            "serialPad"   the serial number INTEGER carries a superfluous leading 00 octet
+\*            "versionPad"  the version INTEGER carries one (02 02 00 02)
+\*            "lenLong"     the length of the outer SEQUENCE carries a superfluous leading 00 octet
+\*            (the padded forms are signed anew by the same issuer key over the bytes as they stand)
+\*   trailer  "none"; "byte" (one further octet); "bytes" (several); "tlv" (a further well-formed element);
+\*            "cert" (a second certificate glued on)
+\* The property: "every certificate parses".  An entry that is a certificate PLUS something is not a certificate,
+\* whatever the encoding of its first part.
+\* NAMED CLAUSES PaddedIntegersRead / PaddedLengthRefused.  The text does not say which deviations from DER still
+\* "parse".  The code reads INTEGERs that are not minimally encoded (it decodes a second time, leniently, and keeps the
+\* complaint as a non-fatal error) and refuses lengths that are not (in both modes): recorded behaviour.
+Encs == {"der", "serialPad", "versionPad", "lenLong"}
+Trailers == {"none", "byte", "bytes", "tlv", "cert"}
+ReadEncs == {"der", "serialPad", "versionPad"}
+EntryParses(enc, trailer) == enc \in ReadEncs /\ trailer = "none"
+FormId(id, enc, trailer) == id \o (IF enc = "der" THEN "" ELSE "~" \o enc) \o (IF trailer = "none" THEN "" ELSE "+" \o trailer)
+\* the entry as a certificate record: other bytes, hence another certificate (id); the same facts when it parses; the
+\* record remembers its encoding (a record without the field is in DER)
+Form(c, enc, trailer) == IF enc = "der" /\ trailer = "none" THEN c
+                         ELSE LET d == [c EXCEPT !.id = FormId(c.id, enc, trailer), !.parses = c.parses /\ EntryParses(enc, trailer)]
+                              IN [f \in DOMAIN c \cup {"enc"} |-> IF f = "enc" THEN enc ELSE d[f]]
+EncOf(c) == IF "enc" \in DOMAIN c THEN c.enc ELSE "der"
+\* NAMED CLAUSE PaddedPrecertRefused.  add-pre-chain derives the log entry from the TBSCertificate of the precertificate
+\* (the poison removed, the issuer rewritten) and reads it for that with the strict decoder: a precertificate LEAF whose
+\* TBSCertificate carries a padded INTEGER is refused by the endpoint (400) although chain validation reads it, while
+\* add-chain admits a certificate with the same padding.  The text is silent; the specification records the code's
+\* behaviour (reported as an observation).  Padded certificates further up the chain - the pre-issuer too - are read.
+PrecertLeafDER(leaf) == EncOf(leaf) = "der"
 
 AllParse(ch) == \A i \in 1..Len(ch) : ch[i].parses
 Linked(ch) == \A i \in 1..Len(ch) - 1 : Links(ch[i], ch[i + 1])
@@ -133,6 +172,7 @@ ValidateWith(chainOK, leaf, o) == chainOK /\ LeafFilters(leaf, o)
 AdmitWith(chainOK, leaf, o, endpoint) == /\ ValidateWith(chainOK, leaf, o)
                                          /\ Kind(leaf) # "malformed"
                                          /\ (Kind(leaf) = "precert") = (endpoint = "add-pre-chain")
+                                         /\ (endpoint = "add-pre-chain" => PrecertLeafDER(leaf))
 ValidateOK(ch, T, o) == ValidateWith(ChainOK(ch, T), ch[1], o)
 Admit(ch, T, o, endpoint) == AdmitWith(ChainOK(ch, T), ch[1], o, endpoint)
 
@@ -143,6 +183,12 @@ PathLaw(ch, T) == ChainOK(ch, T) =>
                              /\ Len(p) >= Len(ch) /\ SubSeq(p, 1, Len(ch)) = ch
                              /\ Last(p) \in T
                              /\ Linked(p) /\ NoRepeat(p)
+\* replacing entry i of a submission by a form of the same certificate: a form that does not parse refuses the chain; a
+\* form that parses is judged on its facts, and every path carries THE FORM (the bytes as submitted) at position i
+EntryLaw(ch, T, i, enc, trailer) ==
+  LET ch2 == [ch EXCEPT ![i] = Form(ch[i], enc, trailer)]
+  IN IF ~EntryParses(enc, trailer) THEN ~ChainOK(ch2, T)
+     ELSE ChainOK(ch2, T) => \A p \in Paths(ch2, T) : p[i] = ch2[i]
 OneEndpoint(ch, T, o) == /\ ~(Admit(ch, T, o, "add-chain") /\ Admit(ch, T, o, "add-pre-chain"))
                          /\ (Kind(ch[1]) = "malformed" => \A e \in Endpoints : ~Admit(ch, T, o, e))
 
